@@ -1097,7 +1097,7 @@ def parts(tier):
             name="match",
             evaluate=eval_match,
             strategy=strat_match,
-            budget={"quick": 1500, "thorough": 100000},
+            budget={"quick": 1500, "thorough": 250000},
             shards={"quick": 1, "thorough": 16},
             min_nontrivial={"quick": 250, "thorough": 15000},
         ),
@@ -1105,7 +1105,7 @@ def parts(tier):
             name="group",
             evaluate=eval_group,
             strategy=strat_group,
-            budget={"quick": 1500, "thorough": 100000},
+            budget={"quick": 1500, "thorough": 250000},
             shards={"quick": 1, "thorough": 16},
             min_nontrivial={"quick": 250, "thorough": 15000},
         ),
@@ -1113,7 +1113,7 @@ def parts(tier):
             name="predict",
             evaluate=eval_predict,
             strategy=strat_predict,
-            budget={"quick": 900, "thorough": 60000},
+            budget={"quick": 900, "thorough": 150000},
             shards={"quick": 1, "thorough": 16},
             min_nontrivial={"quick": 200, "thorough": 12000},
         ),
